@@ -35,7 +35,7 @@ PROPS = {
     "C07": mk(SEM),
     "C08": mk([("once", None)]),
     "C09": mk(BAR),
-    "C10": mk([("mutex", None), ("rw", None), ("sem", 2)]),
+    "C10": mk([("mutex", None), ("rw", None), ("sem", 2)], also=dict(props=["C05", "C06", "C07"], needs_op="dropfut")),
     "C11": mk([("rw", None)]),
     "C12": mk([("rw", None)]),
     "C13": mk([("mutex", None)]),
